@@ -83,7 +83,7 @@ var extremeBytes = []byte{0x00, 0x01, 0x7f, 0x80, 0xfe, 0xff}
 // properties single out: uniform; leading 0x00 / 0xFF runs; values around 0, n,
 // p and 2^256; long runs; single bits; word-structured values (see Limbs). The class label is returned.
 func Bytes32(t *rapid.T, label string) ([]byte, string) {
-	cls := rapid.SampledFrom([]string{"uniform", "uniform", "uniform", "lead00", "leadFF", "near", "runs", "onebit", "extbytes", "limbs"}).Draw(t, label+".class")
+	cls := rapid.SampledFrom([]string{"uniform", "uniform", "uniform", "lead00", "leadFF", "near", "runs", "onebit", "extbytes", "limbs", "dense-recoding"}).Draw(t, label+".class")
 	r := Rand(t, label+".seed")
 	b := RandBytes(r, 32)
 	switch cls {
@@ -135,6 +135,27 @@ func Bytes32(t *rapid.T, label string) ([]byte, string) {
 			}
 			bit ^= 1
 		}
+	case "dense-recoding":
+		// sum of odd digits d_i, |d_i| < 2^(v-1), at positions phase + v*i: the scalars whose signed-window recoding (NAF of width
+		// v-1, fixed windows of v bits, comb columns) has a non-zero digit in EVERY possible place — the most digits any scalar can
+		// have; bit patterns of period v are the special case of equal digits
+		v := Uniform(t, label+".v", 2, 9)
+		phase := Uniform(t, label+".phase", 0, v-1)
+		same := Uniform(t, label+".same", 0, 2) == 0
+		sum := new(big.Int)
+		var d0 int64
+		for i, pos := 0, phase; pos < 257; i, pos = i+1, pos+v {
+			d := int64(2*r.Intn(1<<uint(v-2))+1) * int64(1-2*r.Intn(2))
+			if i == 0 {
+				d0 = d
+			}
+			if same {
+				d = d0
+			}
+			sum.Add(sum, new(big.Int).Lsh(big.NewInt(d), uint(pos)))
+		}
+		sum.Mod(sum, Two256)
+		b = Pad32(sum)
 	case "onebit":
 		for i := range b {
 			b[i] = 0
